@@ -204,9 +204,12 @@ def ps_eval(case):
     hyp_m = hyp[:Tm].clone()
     for n in range(N):
         hyp_m[lens[n]:, n] = -1
-    pad = sequence_log_probs(lg, hyp_m, 0, None)
-    if not torch.allclose(pad, out, atol=ATOL, rtol=0):
-        res["fail"].append(f"packed {out.tolist()} != padded {pad.tolist()}")
+    try:
+        pad = sequence_log_probs(lg, hyp_m, 0, None)
+        if not torch.allclose(pad, out, atol=ATOL, rtol=0):
+            res["fail"].append(f"packed {out.tolist()} != padded {pad.tolist()}")
+    except Exception as e:  # noqa: BLE001
+        res["fail"].append(f"padded tensor path raised {exc_kind(e)}: {str(e)[:80]}")
     return res
 
 
@@ -355,9 +358,12 @@ def walk_eval(case):
     if S and Nn:
         lg = torch.tensor([[lm_logits(case["lmseed"], case["by_n"], n, paths[n][:t], V) for n in range(Nn)]
                            for t in range(S)], dtype=torch.float64).view(S, Nn, V) / 4
-        slp = sequence_log_probs(lg, y, 0, eos)
-        if not torch.allclose(slp, lp.double(), atol=ATOL, rtol=0):
-            res["fail"].append(f"walk log-probs {lpl} != sequence_log_probs of the model outputs {slp.tolist()}")
+        try:
+            slp = sequence_log_probs(lg, y, 0, eos)
+            if not torch.allclose(slp, lp.double(), atol=ATOL, rtol=0):
+                res["fail"].append(f"walk log-probs {lpl} != sequence_log_probs of the model outputs {slp.tolist()}")
+        except Exception as e:  # noqa: BLE001
+            res["fail"].append(f"sequence_log_probs on the walk's paths raised {exc_kind(e)}: {str(e)[:80]}")
     res["nontrivial"] = S >= 2 and Nn >= 1 and (eos is None or any(l < S for l in ll) or S == max_iters)
     return res
 
@@ -432,8 +438,11 @@ def dist_eval(case):
         walk_lp = torch.stack(wlp).view(shape + [bsz])
     if S == 0:
         return res
-    if not bool(dist.support.check(sample).all()):
-        res["fail"].append("sample outside the wrapper's own support constraint")
+    try:
+        if not bool(dist.support.check(sample).all()):
+            res["fail"].append("sample outside the wrapper's own support constraint")
+    except Exception as e:  # noqa: BLE001
+        res["fail"].append(f"support.check raised {exc_kind(e)}")
     # re-scoring
     res["nontrivial"] = True
     lps = []
@@ -465,7 +474,11 @@ def dist_eval(case):
                                                f"{lz([[zs(x) for x in r] for r in lps[2].reshape(num, bsz).tolist()])}"))
     # support
     if T is not None and 1 <= T and V ** T <= 100 and case.get("support", True):
-        sup = dist.enumerate_support()
+        try:
+            sup = dist.enumerate_support()
+        except Exception as e:  # noqa: BLE001
+            res["fail"].append(f"enumerate_support raised {exc_kind(e)}: {str(e)[:80]}")
+            return res
         K = sup.size(0)
         if bsz is not None:
             if tuple(sup.shape) != (K, bsz, T) or not bool((sup == sup[:, :1]).all()):
@@ -476,9 +489,13 @@ def dist_eval(case):
             sup2 = sup
         res["terms"].append(("model_support", f"check_support {oz(eos)} {cn(T)} {cn(V)} {lz(sup2.tolist())}"))
         res["spec"].append(("spec_support", f"forallb (in_support {oz(eos)} {cn(T)} {cz(V)}) {lz(sup2.tolist())} && "
-                                            f"(length {lz(sup2.tolist())} =? length (enumerate_support {oz(eos)} {cn(T)} {cn(V)}))%nat"))
+                                            f"(List.length {lz(sup2.tolist())} =? List.length (enumerate_support {oz(eos)} {cn(T)} {cn(V)}))%nat"))
         dist.clear_cache()
-        slp = dist.log_prob(sup)
+        try:
+            slp = dist.log_prob(sup)
+        except Exception as e:  # noqa: BLE001
+            res["fail"].append(f"log_prob of the enumerated support raised {exc_kind(e)}: {str(e)[:80]}")
+            return res
         mass = slp.double().exp().sum(0)
         if not torch.allclose(mass, torch.ones_like(mass), atol=1e-9, rtol=0):
             res["fail"].append(f"probabilities over the enumerated support sum to {mass.tolist()}")
@@ -726,13 +743,20 @@ def nontrivial_key(case):
 
 
 def _term(res):
-    return "(" + " && ".join(t for _, t in res["terms"]) + ")" if res["terms"] else "true"
+    ts = [t for _, t in res["terms"]] + [t for _, t in res["spec"]]
+    return "(" + " && ".join(ts) + ")" if ts else "true"
 
 
 def _safe_eval(case):
     try:
         return EVAL[case["api"]](case)
-    except Exception as e:  # harness trouble is not a verdict; surface it loudly
+    except Exception as e:
+        import traceback
+        if any("/pydrobert/torch/" in f.filename for f in traceback.extract_tb(e.__traceback__)):
+            # an exception out of the implementation in a place where none is a legal outcome
+            return {"terms": [], "spec": [], "nontrivial": False, "impl": "exc:" + exc_kind(e),
+                    "fail": [f"implementation raised {exc_kind(e)} unexpectedly: {str(e)[:100]}"]}
+        # harness trouble is not a verdict; surface it loudly
         raise RuntimeError(f"harness error on case {json.dumps(case)}: {type(e).__name__}: {e}") from e
 
 
@@ -821,6 +845,8 @@ def judge(chk, case, res, model_ok):
         spec = {n: v for (n, _), v in zip(res["spec"], vals)}
     rec["spec_accepts_impl"] = spec
     concrete = bool(res["fail"]) or not all(spec.values())
+    if not concrete and all(sub.values()) and res["terms"]:
+        return rec, False
     if res["fail"]:
         rec["what"] = "; ".join(res["fail"])[:400]
     elif concrete:
@@ -880,7 +906,7 @@ def run(chk, cases=None):
             chk.report(quick, signature)  # counted under its known-findings entry
             continue
         key = (case["api"], tuple(sorted(f[:30] for f in res["fail"])), bool(ok[i]))
-        if key in seen or len(seen) >= 8:
+        if key in seen or len(seen) >= 5:
             continue
         seen.add(key)
         if not replaying:
